@@ -70,7 +70,7 @@ def run_units(units, tier, seed, searching=False, deadline=None):
     jobs = [(u.prop, u.name, tier, seed, searching) for u in units]
     if not jobs:
         return []
-    nproc = min(len(jobs), int(os.environ.get("VERIF_JOBS", "14")))
+    nproc = min(len(jobs), int(os.environ.get("VERIF_JOBS", "8")))
     if nproc <= 1:
         return [_run_unit(j) for j in jobs]
     ctxmp = mp.get_context("fork")
@@ -98,11 +98,16 @@ def match_known(v: dict, findings) -> dict | None:
     return None
 
 
+SCRATCH = {"on": False}
+
+
 def write_replay(prop: str, tag: str, payload: dict) -> str:
-    os.makedirs(common.REPLAY_DIR, exist_ok=True)
-    path = os.path.join(common.REPLAY_DIR, f"{prop}_{tag}.json")
+    # scratch runs (--only / RL4CO_REPO / VERIF_SCRATCH) must not clobber the replays of registered runs
+    rdir = os.path.join("/tmp", f"verif-scratch-replays-{os.getuid()}-{os.getpid()}") if SCRATCH["on"] else common.REPLAY_DIR
+    os.makedirs(rdir, exist_ok=True)
+    path = os.path.join(rdir, f"{prop}_{tag}.json")
     common.jdump(payload, path)
-    return os.path.relpath(path, common.VERIF)
+    return os.path.relpath(path, common.VERIF) if not SCRATCH["on"] else path
 
 
 def main(argv=None) -> int:
@@ -114,6 +119,7 @@ def main(argv=None) -> int:
     ap.add_argument("--only", default=None)
     a = ap.parse_args(argv)
     prop, tier, seed = a.prop, a.tier, a.seed
+    SCRATCH["on"] = bool(a.only) or bool(os.environ.get("RL4CO_REPO")) or bool(os.environ.get("VERIF_SCRATCH"))
     t0 = time.time()
     budget_s = float(os.environ.get("VERIF_TIMEOUT_S", "1500" if tier == "quick" else "10000"))
     deadline = t0 + budget_s
@@ -175,6 +181,17 @@ def main(argv=None) -> int:
             for t in u.theorems:
                 thm_report.append({"theorem": t.name, "unit": u.name, "status": t.status, "note": t.note,
                                    "axioms": None, "ok": False})
+
+    lc = None
+    if tier == "thorough":
+        okm = [m for m in modules if m in built]
+        try:
+            lc_ok, lc_out = leanio.leanchecker(okm)
+        except Exception as e:
+            lc_ok, lc_out = False, str(e)
+        lc = {"ok": lc_ok, "modules": len(okm)}
+        if not lc_ok:
+            broken.append({"kind": "leanchecker", "name": "leanchecker " + " ".join(okm), "detail": lc_out})
 
     # 4. units
     results = run_units(units, tier, seed, deadline=deadline) if driver_ok else []
@@ -267,6 +284,7 @@ def main(argv=None) -> int:
             "broken_ties": [{"kind": b["kind"], "name": b["name"]} for b in broken],
             "known_findings_reported": [f["id"] for f in findings if f.get("status", "known") == "known"],
             "failing_input_search_ran": searched,
+            "leanchecker": lc,
         },
         "assumptions": sorted({s for u in units for s in u.assumptions}),
         "wall_s": round(time.time() - t0, 2),
